@@ -326,6 +326,10 @@ package shimagent
 //@   ensures [upstream-failure-surfaces] (!old(s.locked) && ret(filter, f0, 2) == nil && ret(Agent.Signers, g0, 1) != nil) ==> (result0 == nil && result1 == ret(Agent.Signers, g0, 1))
 //@   ensures [no-hidden-upstream-signer] (!old(s.locked) && result1 == nil) ==> forall(i, 0 <= i && i < len(result0), result0[i] != nil &&
 //@     (typeof(result0[i]) == signer || (s.noUpstreamSSHCACert ==> !hiddenKey(signerKey(result0[i])))))
+//@   ensures [visible-upstream-signers-stay-listed] (!old(s.locked) && result1 == nil) ==> forall(j, 0 <= j && j < len(ret(Agent.Signers, g0, 0)),
+//@     (!s.noUpstreamSSHCACert || !keyutil.castable(signerKey(ret(Agent.Signers, g0, 0)[j])) ||
+//@      (!(sha(blobid(signerKey(ret(Agent.Signers, g0, 0)[j]))) in dom(s.upstreamSSHCACertCache)) && !hiddenKey(signerKey(ret(Agent.Signers, g0, 0)[j])))) ==>
+//@     exists(i, 0 <= i && i < len(result0), result0[i] == ret(Agent.Signers, g0, 0)[j]))
 //@   loop 1:
 //@     invariant wheld(s) && inv(s) && !old(s.locked) && cacheOff(s)
 //@     invariant calls(filter) == f0 + 1 && arg(filter, f0, 0) == s && ret(filter, f0, 2) == nil && calls(Agent.Signers) == g0
@@ -342,3 +346,7 @@ package shimagent
 //@     invariant forall(j, 0 <= j && j < len(uss), uss[j] != nil)
 //@     invariant [no-hidden-upstream-signer] forall(i, 0 <= i && i < len(signers), signers[i] != nil &&
 //@       (typeof(signers[i]) == signer || (s.noUpstreamSSHCACert ==> !hiddenKey(signerKey(signers[i])))))
+//@     invariant [visible-upstream-signers-stay-listed] forall(j, 0 <= j && j <= rangeindex,
+//@       (!s.noUpstreamSSHCACert || !keyutil.castable(signerKey(uss[j])) ||
+//@        (!(sha(blobid(signerKey(uss[j]))) in dom(s.upstreamSSHCACertCache)) && !hiddenKey(signerKey(uss[j])))) ==>
+//@       exists(i, 0 <= i && i < len(signers), signers[i] == uss[j]))
